@@ -76,11 +76,30 @@ func (acraCensor *AcraCensor) ReleaseAll() {
 
 // HandleQuery processes every query through each handler.
 func (acraCensor *AcraCensor) HandleQuery(rawQuery string) error {
+	return acraCensor.handleQuery(rawQuery, nil)
+}
+
+// handleQuery processes a query through each handler. preparedStatement is set for the statement inside a PREPARE:
+// rawQuery is its printed form then, and preparedStatement the parse tree it arrived with.
+func (acraCensor *AcraCensor) handleQuery(rawQuery string, preparedStatement sqlparser.Statement) error {
 	if len(acraCensor.handlers) == 0 && acraCensor.unparsedQueriesWriter == nil {
 		// no handlers, AcraCensor won't work
 		return nil
 	}
 	normalizedQuery, queryWithHiddenValues, parsedQuery, err := acraCensor.parser.HandleRawSQLQuery(rawQuery)
+	if preparedStatement != nil {
+		// judged by its own parse tree: printing and parsing it again may lose details (a named placeholder
+		// is printed as `?`)
+		normalizedQuery, parsedQuery, err = rawQuery, preparedStatement, nil
+	} else if prepare, ok := parsedQuery.(*sqlparser.Prepare); ok {
+		// PREPARE name FROM 'statement' (MySQL) / PREPARE name AS statement (PostgreSQL): the statement is executed
+		// later under a name that tells nothing about it, so it has to be admitted itself, now
+		if statement, ok := prepare.PreparedStatementQuery.(sqlparser.Statement); ok {
+			if err := acraCensor.handleQuery(sqlparser.String(statement), statement); err != nil {
+				return err
+			}
+		}
+	}
 	// Unparsed query handling
 	if err == sqlparser.ErrQuerySyntaxError {
 		acraCensor.saveUnparsedQuery(rawQuery)
